@@ -11,10 +11,12 @@ CONFIG = {
         "rule": "descriptor generator (not the j5s compiler): 1-3 linked proto3 files built as FileDescriptorProtos and passed "
                 "through the wire; messages, nested messages and enums, enums with and without *_UNSPECIFIED = 0 / no_default, real "
                 "oneofs (plain, exposed, hidden, named `type`), proto3-optional, maps (string and other key kinds), repeated, every "
-                "scalar kind incl. fixed32/fixed64/sfixed32/sfixed64/sint32/sint64, Timestamp/Duration/Struct/Any/Empty/wrappers/"
-                "FieldMask/Value and the j5 date/decimal/any types, self and mutual recursion (also through flatten), oneof "
-                "wrappers by shape and by option, psm markers, duplicate / custom json_name, schema-name collisions through '_' "
-                "(message/message and message/enum); the witnesses of every recorded finding run first in each shard; "
+                "scalar kind incl. fixed32/fixed64/sfixed32/sfixed64/sint32/sint64, Timestamp/Any and the j5 date/decimal/any types "
+                "(single, list and map), the unsupported google types Duration/Struct/Empty/wrappers/FieldMask/Value, self and mutual "
+                "recursion (also through flatten), oneof wrappers by shape and by option, psm markers, duplicate / custom json_name, a "
+                "field whose json_name is the lowerCamel name of an exposed oneof of the same message, schema-name collisions through "
+                "'_' (message/message and message/enum), sub-packages (x.v1.service / x.v1.topic) referenced from another package; "
+                "the witnesses of every recorded finding (open and repaired) and of the seeded changes run first in each shard; "
                 "annotations (buf.validate.field) / (j5.list.v1.field) / (j5.ext.v1.field) / (j5.ext.v1.key) consistent with the "
                 "field in every fifth set and with ~10% inconsistent choices otherwise. Each set: SchemaSetFromFiles, then per "
                 "message SchemaCache.Schema, Reflector.NewRoot, codec on the empty message, the query decoder, one populated field "
@@ -30,15 +32,23 @@ CONFIG = {
         "names, kinds, cardinalities and the type cases / flags of the three annotation families; strcase.ToLowerCamel of "
         "oneof names is shipped, not modelled",
         "protodesc / protoregistry linking: every message / enum a field refers to is in the set, an enum has at least one "
-        "value (hypothesis `Linked` of the theorems)",
-        "lib/j5reflect: ClientProperties / newPropSet path resolution are modelled (J5V/Schema/PropSetModel.lean) and tied "
-        "through the NewRoot class of every message; the field factories' kind checks are modelled but reached on the Go "
-        "side by the codec oracle only; internal/codec itself is the codec cluster's model",
+        "value, full names are unique across messages / enums / oneofs, field numbers are unique within a message (hypothesis "
+        "`linked` of the theorems; the driver evaluates it on every generated summary and the harness answers linked=1 for "
+        "every set protodesc accepted, so a hypothesis real sets do not meet shows as a disagreement)",
+        "lib/j5reflect: ClientProperties / newPropSet path resolution are modelled (J5V/Schema/Reader.lean clientProps, "
+        "PropSetModel.lean) and tied through the NewRoot class of every message; the field factories' kind checks and the "
+        "array / map item switches are modelled but reached on the Go side by the codec oracle only; internal/codec itself is "
+        "the codec cluster's model",
+        "J5V/Schema/CodecBridge.lean toEnv (the reflected registry rendered as the codec model's Env) is not validated by a "
+        "stream; C18_reflected_itemsOk depends only on the field shapes, which are the reader model's",
     ],
     "assumptions": [
         "RangeFiles order is unspecified; the model reflects file-level messages in declaration order. The class of the "
         "set-level result does not depend on the order (an error in any message fails the set; colliding schema names are "
         "an error from either side since af1da62)",
         "populated messages use plain valid values (non-zero defined enum numbers, one member per oneof, small depth)",
+        "in a set where two descriptors map to one schema name (an error since af1da62) the codec's own cache may reject a "
+        "message the harness's cache accepted (which descriptor claims the name depends on the call history): a codec error "
+        "carrying the claim error is then not counted — reflection did not succeed on that cache",
     ],
 }
